@@ -26,6 +26,10 @@ iteration — so the revision count reported for the combination is the sum of t
 R3 (shape) _max_pack_count is the digit sum of the revision count (sum of int(digit) over str(total), 1 for zero).
 Added while testing against seeded changes: R3b pack_distribution / _max_pack_count / the planner use integer
 arithmetic only (no floating point) and pack_distribution is built from the decimal digits like _max_pack_count.
+Added while testing against seeded changes: R1-total-counted-per-attempt — the revision total that feeds the trigger and
+the distribution is counted inside the retried unit (_do_autopack itself, or inside autopack's retry loop when handed in
+as an argument), never once before the loop; R2-no-raise-per-operation — the planner raises nothing from inside its
+loops (its only internal assertion is on the final, merged combination).
 Does not decide: the digit-sum bound after packing, "at least two packs" (the AssertionError for a single pack is
 reachable or not depending on integer inputs) or index errors on pack_distribution[0] — unbounded integer arithmetic,
 out of reach for static analysis without a solver.
@@ -40,7 +44,33 @@ def run(ctx):
     plan = need(where, calling(g, attr="plan_autopack_combinations"), "plan_autopack_combinations(...)")
     ex = need(where, calling(g, attr="_execute_pack_operations"), "_execute_pack_operations(...)")
     # role binding: locals are identified by what they hold
-    tr = one(bound_names(fn, lambda t, n: "revision_index" in t and "key_count()" in t), "total_revisions = <revision index>.key_count()", where)
+    tr_local = bound_names(fn, lambda t, n: "revision_index" in t and "key_count()" in t)
+    if tr_local:
+        tr = one(tr_local, "total_revisions = <revision index>.key_count()", where)
+        ctx.check("R1-total-counted-per-attempt", where, True, "the revision total is counted inside _do_autopack, i.e. anew on every retry after the pack names were reloaded")
+    else:
+        # the total arrives as a parameter: it must then be counted inside the retry loop of the caller, after the
+        # reload that RetryAutopack stands for — a total from before the reload no longer matches the packs planned over
+        params = [a.arg for a in fn.args.args if a.arg != "self"]
+        used = [p_ for p_ in params if any(call_attr(c) == "_max_pack_count" and [norm(a) for a in c.args] == [p_] for c in calls_in(fn))]
+        tr = one(used, "the revision total (local from key_count() or a parameter handed to _max_pack_count)", where)
+        fa = repo.func(PR, f"{COLL}.autopack")
+        wa = f"{PR}:{COLL}.autopack"
+        loops = [l_ for l_ in walk_own(fa) if isinstance(l_, ast.While) and any(call_attr(c) == "_do_autopack" for c in calls_in(l_))]
+        ctx.require(len(loops) == 1, f"{wa}: retry loop around _do_autopack not found")
+        inside = {id(x) for x in ast.walk(loops[0])}
+        idx = params.index(tr)
+        fresh = True
+        for c in calls_in(loops[0]):
+            if call_attr(c) != "_do_autopack":
+                continue
+            a = c.args[idx] if idx < len(c.args) else next((k.value for k in c.keywords if k.arg == tr), None)
+            if isinstance(a, ast.Name):
+                defs = [s_ for s_ in walk_own(fa) if isinstance(s_, ast.Assign) and any(norm(t) == a.id for t in s_.targets)]
+                fresh = fresh and bool(defs) and all(id(s_) in inside for s_ in defs)
+            elif a is None or not any(call_attr(x) == "key_count" for x in ast.walk(a) if isinstance(x, ast.Call)):
+                fresh = False
+        ctx.check("R1-total-counted-per-attempt", wa, fresh, "the revision total handed to _do_autopack is counted inside the retry loop", construct=f"_do_autopack({tr}=…) counted before the loop", message="autopack counts the revisions once before its retry loop: after a RetryAutopack the pack names are reloaded (another writer may have added revisions and packs) but the trigger and the distribution still use the old total — the planner is consulted although the pack count is within the bound, or with a distribution that does not cover its packs (IndexError)")
     tp = one(bound_names(fn, lambda t, n: t == "len(self._names)"), "total_packs = len(self._names)", where)
     bound = f"self._max_pack_count({tr}) >= {tp}"
     k2_unreachable(ctx, "R1-nothing-within-bound", where, g, {bound: True, f"{tp} <= self._max_pack_count({tr})": True, f"self._max_pack_count({tr}) < {tp}": False}, plan + ex, "when the pack count is within the bound nothing is planned or executed")
@@ -62,16 +92,23 @@ def run(ctx):
     # the final accumulation loop: `for a, b in <po>: A += a; B.extend(b)`
     acc = None
     for n in walk_own(fp):
-        if isinstance(n, ast.For) and isinstance(n.target, ast.Tuple) and len(n.target.elts) == 2 and len(n.body) == 2:
+        if isinstance(n, ast.For) and isinstance(n.target, ast.Tuple) and len(n.target.elts) == 2:
             a_, b_ = (norm(e) for e in n.target.elts)
-            s0, s1 = n.body
-            if isinstance(s0, ast.AugAssign) and isinstance(s0.op, ast.Add) and norm(s0.value) == a_ and isinstance(s1, ast.Expr) and isinstance(s1.value, ast.Call) and call_attr(s1.value) == "extend" and [norm(x) for x in s1.value.args] == [b_]:
-                acc = (norm(n.iter), norm(s0.target), call_recv(s1.value))
+            s0 = [x for x in n.body if isinstance(x, ast.AugAssign) and isinstance(x.op, ast.Add) and norm(x.value) == a_]
+            s1 = [x for x in n.body if isinstance(x, ast.Expr) and isinstance(x.value, ast.Call) and call_attr(x.value) == "extend" and [norm(y) for y in x.value.args] == [b_]]
+            if len(s0) == 1 and len(s1) == 1:
+                acc = (norm(n.iter), norm(s0[0].target), call_recv(s1[0].value))
+                acc_loop = n
     ctx.check("R2-count-is-sum-of-combined", wp, acc is not None, "the count and the pack list of the combination are accumulated together from the same (count, packs) operation", message="the reported revision count and the list of combined packs are no longer accumulated from the same operations")
     po, A, B = acc if acc else ("?", "?", "?")
     rets = [norm(r.value) for r in walk_own(fp) if isinstance(r, ast.Return)]
     shapes = set(rets)
-    ctx.check("R2-return-shapes", wp, shapes == {"[]", f"[[{A}, {B}]]"}, f"returns are [] or a single combination: {sorted(shapes)}", construct=str(sorted(shapes)), message=f"plan_autopack_combinations can return {sorted(shapes)}: not 'nothing or a single combination'")
+    # "planning never fails with an internal error": the planner's only raise is the final single-pack assertion on the
+    # accumulated combination; a raise per operation (inside a loop) fires for inputs the merged combination handles
+    in_loops = [r for l_ in walk_own(fp) if isinstance(l_, (ast.For, ast.While)) for r in ast.walk(l_) if isinstance(r, ast.Raise)]
+    top_raises = [r for r in walk_own(fp) if isinstance(r, ast.Raise) and r not in in_loops]
+    ctx.check("R2-no-raise-per-operation", wp, not in_loops, f"no raise inside the planner's loops ({len(top_raises)} outside)", construct="; ".join(f"L{r.lineno}:{norm(r)[:50]}" for r in in_loops), message="plan_autopack_combinations raises from inside a loop over its operations: a sub-operation that legitimately holds a single pack (the rest of an over-filled bucket) now aborts planning with an internal error although the merged combination has two or more packs")
+    ctx.check("R2-return-shapes", wp, f"[[{A}, {B}]]" in shapes and shapes <= {"[]", f"[[{A}, {B}]]"}, f"returns are [] or a single combination: {sorted(shapes)}", construct=str(sorted(shapes)), message=f"plan_autopack_combinations can return {sorted(shapes)}: not 'nothing or a single combination'")
     blocks = _blocks(fp)
     pops = [s for s in walk_own(fp) if isinstance(s, ast.Assign) and isinstance(s.value, ast.Call) and call_attr(s.value) == "pop" and isinstance(s.targets[0], ast.Tuple)]
     ok = len(pops) == 1
@@ -110,6 +147,9 @@ def run(ctx):
 
 
 MUTANTS = [
+    Mutant("revisions counted once before the retry loop", PR, '        while True:\n            try:\n                return self._do_autopack()\n            except RetryAutopack:\n                # If we get a RetryAutopack exception, we should abort the\n                # current action, and retry.\n                pass\n\n    def _do_autopack(self):\n        # XXX: Should not be needed when the management of indices is sane.\n        total_revisions = self.revision_index.combined_index.key_count()\n', '        total_revisions = self.revision_index.combined_index.key_count()\n        while True:\n            try:\n                return self._do_autopack(total_revisions)\n            except RetryAutopack:\n                # If we get a RetryAutopack exception, we should abort the\n                # current action, and retry.\n                pass\n\n    def _do_autopack(self, total_revisions):\n', expect="R1-total-counted-per-attempt"),
+    Mutant("single-pack assertion per sub-operation", PR, "        for num_revs, pack_files in pack_operations:\n            final_rev_count += num_revs\n", "        for num_revs, pack_files in pack_operations:\n            if len(pack_files) == 1:\n                raise AssertionError(\"single pack\")\n            final_rev_count += num_revs\n", expect="R2-no-raise-per-operation"),
+    Mutant("neutral: dead return after the final assertion removed", PR, "                \"We somehow generated an autopack with a single pack file being moved.\"\n            )\n            return []\n", "                \"We somehow generated an autopack with a single pack file being moved.\"\n            )\n", neutral=True),
     Mutant("distribution through math.log", PR, "        digits = reversed(str(total_revisions))\n        result = []", "        import math\n        top = int(math.log(total_revisions, 10))\n        digits = reversed(str(total_revisions))\n        result = []", expect="R3-integer-exact"),
     Mutant("early-return test inverted", PR, "        if self._max_pack_count(total_revisions) >= total_packs:\n            return None", "        if self._max_pack_count(total_revisions) < total_packs:\n            return None", expect="R1-nothing-within-bound"),
     Mutant("count accumulated without the pack", PR, "                pack_operations[-1][0] += next_pack_rev_count\n                # allocate this pack to the next pack sub operation\n                pack_operations[-1][1].append(next_pack)\n", "                pack_operations[-1][0] += next_pack_rev_count\n                if next_pack_rev_count > 1:\n                    pack_operations[-1][1].append(next_pack)\n", expect="R2-count-is-sum-of-combined"),
